@@ -52,7 +52,14 @@ DoRestore   == (\E s \in 1..Len(slots) : Restore(s)) /\ UNCHANGED last
 \* pop, assignment outside any model, rebuild (poison-free values only: a build whose node function raises fails)
 DoRebuild   == (\E n \in Node, x \in Atoms \ {"!"} : Rebuild(n, x, ord)) /\ UNCHANGED last
 DoReload    == Reload /\ UNCHANGED last
+\* low-level node API: flag_outdated on any node; Node.update on a caching node whose inputs are up to date
+DoFlagOutdated == (\E n \in Node : FlagOutdated(n)) /\ UNCHANGED last
+DoNodeUpdate == (\E n \in Node : InputsUpToDate(n) /\ NodeUpdate(n)) /\ UNCHANGED last
+\* ... and without its precondition, as the code allows it (G8: Coherent is refuted)
+DoNodeUpdateAny == (\E n \in Node : NodeUpdate(n)) /\ UNCHANGED last
 Next == DoAssign \/ DoSetAuto \/ DoUpdateAll \/ DoTargets \/ DoSaveU \/ DoRestore \/ DoRebuild \/ DoReload
+        \/ DoFlagOutdated \/ DoNodeUpdate
+NextAny == Next \/ DoNodeUpdateAny
 \* same next-state relation with the arguments visible in TLC's simulation traces
 \* `last` names the action and its arguments (history variable, constant in the exhaustive spec)
 NextArgs ==
@@ -64,13 +71,16 @@ NextArgs ==
         \/ \E s \in 1..Len(slots) : Restore(s) /\ last' = <<"restore", s>>
         \/ \E n \in Node, x \in Atoms \ {"!"} : Rebuild(n, x, ord) /\ last' = <<"rebuild", n, x>>
         \/ Reload /\ last' = <<"reload">>
+        \/ \E n \in Node : FlagOutdated(n) /\ last' = <<"flag_outdated", n>>
+        \/ \E n \in Node : InputsUpToDate(n) /\ NodeUpdate(n) /\ last' = <<"node_update", n>>
 
 \* post-conditions of the update actions as action properties
 FullUpdateCleanA == [][UpdateAll => FullUpdateClean']_<<gvars, svars, last>>
 TargetsCleanA == [][\A T \in (SUBSET Node) \ {{}} : UpdateTargets(T) => TargetsCleanFor(T)']_<<gvars, svars, last>>
 \* a caching node is evaluated only if it was dirty before the operation
-EvalOnlyIfDirtyA == [][(\E m \in Node, x \in Atoms : Rebuild(m, x, ord)) \/
+EvalOnlyIfDirtyA == [][(\E m \in Node, x \in Atoms : Rebuild(m, x, ord)) \/ (\E m \in Node : NodeUpdate(m)) \/
                        \A n \in evald' : dirty[n] \/ (\E m \in Node, x \in Atoms : Assign(m, x) /\ n \in Desc(m))]_<<gvars, svars, last>>
 Spec == Init /\ [][Next]_<<gvars, svars, last>>
+SpecAny == Init /\ [][NextAny]_<<gvars, svars, last>>
 SpecArgs == Init /\ [][NextArgs]_<<gvars, svars, last>>
 =============================================================================
